@@ -7,6 +7,7 @@ import MosaikModel.WF
 import MosaikProofs.Sched.Deadlock
 import MosaikProofs.Sched.WF
 import MosaikProofs.Sched.Buffer
+import MosaikProofs.Sched.Cached
 namespace Mosaik
 
 theorem Cfg.sim_of_ge {cfg : Cfg} {p : Sid} (h : cfg.n ≤ p) : cfg.sim p = {} := by
@@ -68,6 +69,21 @@ theorem pushB_sound {cfg : Cfg} (h : cfg.pushB = true) : PushOk cfg := by
     obtain ⟨qd, hqd, heq, hle⟩ := (unpack p hp e he).2
     refine ⟨qd.2, ?_, TI.leB_sound hle⟩
     have : qd = (p, qd.2) := by rw [← heq]
+    rw [← this]; exact hqd
+
+theorem pullB_sound {cfg : Cfg} (h : cfg.pullB = true) : PullOk cfg := by
+  simp only [Cfg.pullB, List.all_eq_true, List.mem_range] at h
+  have unpack := fun p hp => by
+    have := h p hp
+    simp only [Cfg.pullSim, Bool.and_eq_true, List.all_eq_true, List.any_eq_true, beq_iff_eq, decide_eq_true_eq] at this
+    exact this
+  constructor
+  · intro p hp e he; exact (unpack p hp e he).1.1.1
+  · intro p hp e he; exact ⟨(unpack p hp e he).1.1.2, (unpack p hp e he).1.2⟩
+  · intro p hp e he
+    obtain ⟨qd, hqd, heq, hle⟩ := (unpack p hp e he).2
+    refine ⟨qd.2, ?_, TI.leB_sound hle⟩
+    have : qd = (e.1, qd.2) := by rw [← heq]
     rw [← this]; exact hqd
 
 /-- what a run of the driver's check establishes: the deadlock-freedom theorem applies -/
